@@ -1,8 +1,136 @@
-(* C12 — A mounted layer stays usable; a released layer gives back all its resources. *)
+(* C12 — A mounted layer stays usable; a released layer gives back all its resources.
+   Statements only; every proof is [exact <lemma of Proofs/Resolver.v>].
+   A history [os : list op] is an arbitrary interleaving of: starting Resolve calls, single sub-steps of any of
+   them (each with an adversary-chosen outcome of the external call it makes: connectivity check, registry,
+   metadata store), Done, Close (any number of times per handle), TTL expiry of either cache, Use, Refresh. *)
 From Coq Require Import List Arith ZArith Bool.
+From SV Require Import Model.Refcache Proofs.Refcache.
 From SV Require Import Model.Resolver Proofs.Resolver.
 Import ListNotations.
 
-Theorem C12_exec_app : forall s os1 os2, Resolver.exec s (os1 ++ os2) = Resolver.exec (Resolver.exec s os1) os2.
-Proof. exact exec_app. Qed.
-Print Assumptions C12_exec_app.
+(* held_layer_usable.  In every reachable state, a layerRef whose holder called neither Done nor Close refers to a
+   layer that is not closed, whose fscache directory exists, whose blob reference has not been released, whose blob
+   is not closed and whose httpcache directory exists — whatever expiry, other resolvers (succeeding, failing,
+   evicting after a failed check), other holders' Done/Close and refreshes did in between. *)
+Theorem C12_held_layer_usable :
+  forall (os : list Resolver.op) (u h : nat),
+    let s := Resolver.exec Resolver.init os in
+    nth_error (uh s) u = Some (h, false) ->
+    layer_flags s h = (false, false) /\
+    exists v o b ob,
+      nth_error (hs (lc s)) h = Some (v, false) /\ nth_error (lobjs s) v = Some o /\ l_closed o = false /\
+      In (l_dir o) (dirs s) /\ nth_error (hs (bc s)) (l_bh o) = Some (b, false) /\
+      nth_error (bobjs s) b = Some ob /\ b_closed ob = false /\ In (b_dir ob) (dirs s).
+Proof. intros os u h s H. exact (held_usable s u h (Proofs.Resolver.reach_inv os) H). Qed.
+Print Assumptions C12_held_layer_usable.
+
+(* ... hence what the holder observes: Check/RootNode/reads see an open layer and blob, Refresh succeeds whenever
+   the registry answers. *)
+Theorem C12_held_layer_serves :
+  forall (os : list Resolver.op) (u h : nat),
+    let s := Resolver.exec Resolver.init os in
+    nth_error (uh s) u = Some (h, false) ->
+    Resolver.step s (Use u) = (s, EUse false false) /\ Resolver.step s (Refresh u true) = (s, ENone).
+Proof. intros os u h s H. exact (held_use s u h (Proofs.Resolver.reach_inv os) H). Qed.
+Print Assumptions C12_held_layer_serves.
+
+(* released_reclaimed (layer).  Once no done-closure of layer v is outstanding (every holder released; by
+   C12_nothing_orphaned below every outstanding closure belongs to an unreleased layerRef or to a Resolve call in
+   flight) and v has left the cache (expired, evicted by Close or by a failed check), the layer is closed (reader
+   and metadata closed), its fscache directory is gone and its blob reference has been released. *)
+Theorem C12_released_layer_reclaimed :
+  forall (os : list Resolver.op) (v : nat) (o : lobj),
+    let s := Resolver.exec Resolver.init os in
+    nth_error (lobjs s) v = Some o ->
+    (forall h, nth_error (hs (lc s)) h <> Some (v, false)) -> ~ in_cache (lc s) v ->
+    l_closed o = true /\ ~ In (l_dir o) (dirs s) /\ exists b, nth_error (hs (bc s)) (l_bh o) = Some (b, true).
+Proof. intros os v o s. exact (layer_reclaimed s v o (Proofs.Resolver.reach_inv os)). Qed.
+Print Assumptions C12_released_layer_reclaimed.
+
+(* released_reclaimed (blob): likewise the blob and its httpcache directory. *)
+Theorem C12_released_blob_reclaimed :
+  forall (os : list Resolver.op) (b : nat) (ob : bobj),
+    let s := Resolver.exec Resolver.init os in
+    nth_error (bobjs s) b = Some ob ->
+    (forall h, nth_error (hs (bc s)) h <> Some (b, false)) -> ~ in_cache (bc s) b ->
+    b_closed ob = true /\ ~ In (b_dir ob) (dirs s).
+Proof. intros os b ob s. exact (blob_reclaimed s b ob (Proofs.Resolver.reach_inv os)). Qed.
+Print Assumptions C12_released_blob_reclaimed.
+
+(* failed_resolve_leaks_nothing, global part.  In every reachable state every outstanding done-closure of the layer
+   cache belongs to an unreleased layerRef or to a Resolve in flight; every outstanding done-closure of the blob cache
+   belongs to an unclosed layer or to a Resolve in flight; every existing cache directory belongs to an unclosed layer,
+   an unclosed blob or a Resolve in flight.  (So nothing a failed, finished Resolve created can remain.) *)
+Theorem C12_nothing_orphaned :
+  forall (os : list Resolver.op),
+    let s := Resolver.exec Resolver.init os in
+    (forall h v, nth_error (hs (lc s)) h = Some (v, false) -> lc_owner s h) /\
+    (forall h b, nth_error (hs (bc s)) h = Some (b, false) -> bc_owner s h) /\
+    (forall d, In d (dirs s) -> dir_owner s d).
+Proof. intros os s. exact (no_orphans s (Proofs.Resolver.reach_inv os)). Qed.
+Print Assumptions C12_nothing_orphaned.
+
+(* failed_resolve_leaks_nothing, local part.  A sub-step on which Resolve returns an error (in any state) leaves the
+   call finished (holding nothing), has removed the directory it held and created no directory. *)
+Theorem C12_failed_resolve_leaks_nothing :
+  forall (s : Resolver.st) (t : nat) (ok : bool),
+    snd (tstep s t ok) = EErr ->
+    pc_of (fst (tstep s t ok)) t = PDone /\
+    exists th d, nth_error (thrs s) t = Some th /\ pc_dir (t_pc th) = Some d /\
+      ~ In d (dirs (fst (tstep s t ok))) /\ (forall d', In d' (dirs (fst (tstep s t ok))) -> In d' (dirs s)).
+Proof. exact tstep_err. Qed.
+Print Assumptions C12_failed_resolve_leaks_nothing.
+
+(* single_instance.  FULL STATEMENT (not proved here): "two Resolve calls for one name never both run between
+   resolveLock.Lock and Unlock, hence a Resolve reaches layerCache.Add only when no instance of that name is cached,
+   hence at most one instance per name is ever created while another is cached" — this needs the per-name lock
+   discipline as a further invariant (mutual exclusion of PWait-exits per name); it is checked on every run by the
+   harness oracle ("two Resolve calls ... run past the per-name lock together") and by the model/code comparison of the
+   Blocked events, but not proved in Coq.
+   PROVED (extra hypothesis spelled out: the call does get the lock, i.e. the name's lock is free when it looks up):
+   a Resolve that looks up a name whose instance v is cached obtains exactly v (it holds a done-closure of v), and
+   if v then passes the connectivity check the call returns v, not a new instance. *)
+Theorem C12_single_instance_partial :
+  forall (s : Resolver.st) (t : nat) (th : thr) (v : nat),
+    nth_error (thrs s) t = Some th -> t_pc th = PWait ->
+    mem (t_name th) (locks s) = false -> lru_find (lru (lc s)) (t_name th) = Some v ->
+    let s1 := fst (tstep s t true) in
+    pc_of s1 t = PHit (length (hs (lc s))) /\ hval (lc s1) (length (hs (lc s))) = Some v /\
+    (forall th1, nth_error (thrs s1) t = Some th1 -> t_pc th1 = PHit (length (hs (lc s))) ->
+       layer_flags s1 (length (hs (lc s))) = (false, false) -> snd (tstep s1 t true) = ERet v false).
+Proof.
+  intros s t th v Ht Hp Hl Hf s1. destruct (lookup_hit s t th v Ht Hp Hl Hf) as [A B].
+  split; [exact A|]. split; [exact B|]. intros th1 H1 H2 H3. exact (hit_returns s1 t th1 _ v H1 H2 H3 B).
+Qed.
+Print Assumptions C12_single_instance_partial.
+
+(* The states the harness observes (coarse steps: a Resolve runs from one external call to the next, and a waiter
+   on the per-name lock proceeds when the lock is released) satisfy the same invariant, hence the same theorems. *)
+Theorem C12_coarse_histories_covered :
+  forall (os : list Resolver.op) (u h : nat),
+    let s := cexec Resolver.init os in
+    nth_error (uh s) u = Some (h, false) -> layer_flags s h = (false, false).
+Proof. intros os u h s H. exact (proj1 (held_usable s u h (cexec_inv os _ RInv_init) H)). Qed.
+Print Assumptions C12_coarse_histories_covered.
+
+(* Non-vacuity: resolve name 0 (registry and metadata answer), a second Resolve shares it; the layer expires, the
+   first holder Closes: the second holder's layer is still open with both directories; after it releases too,
+   everything is reclaimed. *)
+Example C12_nonvacuous_held :
+  let s := cexec Resolver.init [RStart 0; RStep 0 true; RStep 0 true; RStart 0; RStep 1 true; ExpireL 0; ExpireB 0; Close 0] in
+  nth_error (uh s) 1 = Some (1, false) /\ layer_flags s 1 = (false, false) /\ view s = (1, 1, 1).
+Proof. vm_compute. repeat split. Qed.
+
+Example C12_nonvacuous_reclaimed :
+  let s := cexec Resolver.init [RStart 0; RStep 0 true; RStep 0 true; RStart 0; RStep 1 true; ExpireL 0; ExpireB 0; Close 0; Done 1] in
+  (exists o, nth_error (lobjs s) 0 = Some o /\ l_closed o = true) /\ dirs s = [] /\
+  (forall h, nth_error (hs (lc s)) h <> Some (0, false)).
+Proof.
+  vm_compute. split; [eexists; split; reflexivity|]. split; [reflexivity|].
+  intros h H. do 3 (destruct h as [|h]; [discriminate|]). destruct h; discriminate.
+Qed.
+
+Example C12_nonvacuous_failed :
+  let s := cexec Resolver.init [RStart 0; RStep 0 true] in
+  snd (tstep s 0 false) = EErr /\ view s = (1, 1, 0) /\ view (fst (tstep s 0 false)) = (0, 0, 0).
+Proof. vm_compute. repeat split. Qed.
